@@ -454,7 +454,8 @@ def check_c06(run):
 
 @check("C17", "model_checking")
 def check_c17(run):
-    matrix_run(run, REBUILD_CELLS[:3] + [dict(DIMV=2, REAL_T="double", DATA_T="float", ORDERV=0, AUTOBS=0, REBUILDV=0, EXECV=0)], 30 if run.tier == "quick" else 150, ["Export"])
+    matrix_run(run, REBUILD_CELLS[:3] + [dict(DIMV=2, REAL_T="double", DATA_T="float", ORDERV=0, AUTOBS=0, REBUILDV=0, EXECV=0),
+                                         dict(DIMV=3, REAL_T="float", DATA_T="double", ORDERV=0, AUTOBS=0, REBUILDV=1, EXECV=2)], 30 if run.tier == "quick" else 150, ["Export"])
     run_fmm_configs(run, "C17", tree_configs(run.tier)[:3], module="BlockTreeMC", shards=8, workers=1, parallel=2)
     run_fmm_configs(run, "C17", std_configs(run.tier, hists=("full", "move1"), small=True)
                     + [("tsm-1d-h4", fmm_constants(1, 4, range(5), mode="tsm", bss=(1, 2, 3)))])
@@ -816,6 +817,8 @@ C03_KINDS = ["SameAsSequential", "Covered", "Crash", "Sanitizer", "WorkerKernelB
 
 
 # non-default upper working levels (above, at and below the leaf level) through the task executors
+OMP_ADJ = [("omp-2d-h3-adj", fmm_constants(2, 3, [0, 1, 2, 3, 6, 12], bss=(1, 2, 20))),
+           ("omp-tsm-2d-h3-adj", fmm_constants(2, 3, [0, 1, 2, 3], mode="tsm", maxparts=3, bss=(1, 2)))]
 OMP_STOPS = [("omp-1d-h4-stops", fmm_constants(1, 4, [0, 1, 2, 5, 6, 7], bss=(1, 2, 20), stops=(0, 1, 3, 4), hists=("full", "stages3"))),
              ("omp-2d-h3-stops", fmm_constants(2, 3, [0, 3, 5, 10, 15], bss=(1, 2), stops=(0, 1, 3))),
              ("omp-tsm-1d-h4-stops", fmm_constants(1, 4, [0, 2, 5, 7], mode="tsm", bss=(1, 2), stops=(0, 1, 3, 4)))]
@@ -828,8 +831,8 @@ def omp_configs(tier):
                 ("omp-3d-h4", fmm_constants(3, 4, POOL_3D_H4[:5], bss=(1, 2, 20))),
                 ("omp-1d-h5-multi", fmm_constants(1, 5, POOL_1D_H5[:5], maxper=2, bss=(1, 2, 20))),
                 ("omp-tsm-1d-h5", fmm_constants(1, 5, POOL_1D_H5[:5], mode="tsm", bss=(1, 2, 20))),
-                ("omp-tsm-2d-h4", fmm_constants(2, 4, POOL_2D_H4[:4], mode="tsm", bss=(1, 2)))] + OMP_STOPS
-    return OMP_STOPS + [("omp-1d-h5", fmm_constants(1, 5, POOL_1D_H5, bss=(1, 2, 3, 5, 20), hists=("full", "stages3", "single6", "farnear", "nearfirst", "uponly", "m2lafterup"))),
+                ("omp-tsm-2d-h4", fmm_constants(2, 4, POOL_2D_H4[:4], mode="tsm", bss=(1, 2)))] + OMP_STOPS + OMP_ADJ
+    return OMP_STOPS + OMP_ADJ + [("omp-1d-h5", fmm_constants(1, 5, POOL_1D_H5, bss=(1, 2, 3, 5, 20), hists=("full", "stages3", "single6", "farnear", "nearfirst", "uponly", "m2lafterup"))),
             ("omp-1d-h6", fmm_constants(1, 6, POOL_1D_H6, bss=(1, 2, 3, 20))),
             ("omp-2d-h4", fmm_constants(2, 4, POOL_2D_H4[:8], bss=(1, 2, 3, 20), stops=(0, 2))),
             ("omp-3d-h4", fmm_constants(3, 4, POOL_3D_H4[:7], bss=(1, 2, 3, 20))),
@@ -853,7 +856,7 @@ def taskexec_stage(run):
     carries the model-level result over to the code; it is reported in the evidence, the verdicts on the code come from Covered / SameAsSequential."""
     q = run.tier == "quick"
     cfgs = [("tx-1d-h4", fmm_constants(1, 4, [0, 1, 5] if q else [0, 1, 2, 5], bss=(1, 2)), False),
-            ("tx-2d-h3", fmm_constants(2, 3, [0, 5, 15], bss=(1, 2)), False),
+            ("tx-2d-h3", fmm_constants(2, 3, [0, 1, 3], bss=(1, 2)), False),
             ("tx-tsm-1d-h4", fmm_constants(1, 4, [1, 2, 6], mode="tsm", maxparts=2, bss=(1, 2)), False),
             ("tx-1d-h4-live", fmm_constants(1, 4, [0, 5], bss=(1,)), True)]
     if not q:
@@ -925,7 +928,9 @@ def check_c03(run):
     taskexec_stage(run)
     shared = [("1d-h5", fmm_constants(1, 5, POOL_1D_H5[:7], bss=(1, 2, 3, 20))), ("3d-h4", fmm_constants(3, 4, POOL_3D_H4[:5], bss=(1, 2, 20))),
               ("tsm-1d-h5", fmm_constants(1, 5, POOL_1D_H5[:4], mode="tsm", bss=(1, 2, 20))),
-              ("1d-h4-stops", fmm_constants(1, 4, [0, 1, 2, 5, 6, 7], bss=(1, 2, 20), stops=(0, 1, 3, 4)))]
+              ("1d-h4-stops", fmm_constants(1, 4, [0, 1, 2, 5, 6, 7], bss=(1, 2, 20), stops=(0, 1, 3, 4))),
+              # mutually adjacent leaves in separate groups: one source group shared by several direct-pass tasks
+              ("2d-h3-adj", fmm_constants(2, 3, [0, 1, 2, 3, 6, 12], bss=(1, 2, 20)))]
     if not q:
         shared += [("2d-h4", fmm_constants(2, 4, POOL_2D_H4[:7], bss=(1, 2, 3, 20), hists=("full", "stages3"))), ("tsm-2d-h4", fmm_constants(2, 4, POOL_2D_H4[:4], mode="tsm", bss=(1, 2)))]
     jobs = [("omp-" + n, c, "omp") for n, c in omp_configs(run.tier)]
@@ -1233,11 +1238,17 @@ def check_c15(run):
           ("4d-h3", fmm_constants(4, 3, POOL_4D_H3[:3 if small else 5], bss=(1, 2), hists=("full",))),
           ("tsm-1d-h4", fmm_constants(1, 4, range(4 if small else 6), mode="tsm", bss=(1, 2, 20))),
           ("per-1d-h4", fmm_constants(1, 4, [0, 3, 4, 7], periodic=True, stops=(1,), bss=(1, 2, 20))),
-          ("per-2d-h3", fmm_constants(2, 3, [0, 5, 10, 15], periodic=True, stops=(1,), bss=(1, 20)))]
+          ("per-2d-h3", fmm_constants(2, 3, [0, 5, 10, 15], periodic=True, stops=(1,), bss=(1, 20))),
+          # the periodic top tree (its own stack arrays and virtual cells), single and target/source, dimensions 1-3
+          ("per-1d-h3-top", fmm_constants(1, 3, range(4), periodic=True, maxparts=3, stops=(1,), bss=(1, 20), hists=("ptop",), aboves=(-1, 0, 1, 2))),
+          ("per-2d-h2-top", fmm_constants(2, 2, range(4), periodic=True, maxparts=2, stops=(1,), bss=(1, 20), hists=("ptop",), aboves=(0, 1))),
+          ("per-tsm-1d-h3-top", fmm_constants(1, 3, range(4), periodic=True, mode="tsm", maxparts=2, stops=(1,), bss=(1, 2), hists=("ptop",), aboves=(0, 1)))]
+    if not small:
+        cs.append(("per-3d-h2-top", fmm_constants(3, 2, [0, 3, 5, 7], periodic=True, maxparts=2, stops=(1,), bss=(1, 20), hists=("ptop",), aboves=(0,))))
     allk = sorted(set(k for v in KINDS.values() for k in v) | {"Sanitizer", "Crash"})
     def one(c):
         name, consts = c
-        return name, fmm_campaign(run, "C15-" + name, consts, variant="asan", cap=256 if consts["Periodic"] else 64)
+        return name, fmm_campaign(run, "C15-" + name, consts, variant="asan", cap=1024 if "top" in name else 256 if consts["Periodic"] else 64)
     with ThreadPoolExecutor(max_workers=2) as ex:
         results = list(ex.map(one, cs))
     for name, (pairs, mism) in results:
